@@ -158,7 +158,7 @@ def expected_model_states(full):
         for j in range(names):
             if full or i in hubs or j in hubs or i == j:
                 pairs.add((min(i, j), max(i, j)))
-    return 1 + 12 + 15 + 3 * len(pairs)
+    return 1 + 12 + 16 + 3 * len(pairs)
 
 
 def run(ctx):
@@ -203,7 +203,7 @@ def run(ctx):
                        "every case evaluates the clauses of the property on it (non-trivial)",
                   explanation="MC_Adapt: %d states - the reference checked against itself: 7 RGB spaces (derived matrix maps (1,1,1) to the white "
                               "point and inverts), %s pairs of 16 white points x 3 methods in both orders (white onto white, identity between "
-                              "equal whites, there-and-back = I at 2^-86), the published inverse cone matrices, 5 negative controls. "
+                              "equal whites, there-and-back = I at 2^-86), the published inverse cone matrices, 6 negative / publication controls. "
                               "TraceAdapt judges every recorded event of f32 and f64 against the published constants; bits of agreement per "
                               "clause and the thresholds are in `calibration`." % (r.distinct, "all 136" if full else "a sample (D65 or D50 on one side, and the diagonal) of the"),
                   trusted=["the published constants as written in spec/Adapt.tla (ASTM E308 white points from memory of the table, cross-checked "
